@@ -430,7 +430,7 @@ pub fn run(r: &Run) {
     r.set_rule(RULE);
     r.assume("configured neighbours are passive (no outgoing connection attempts from the rig); IPv4 loopback source addresses stand for neighbour addresses; when several peer groups cover an address the session may follow any of them (the statement does not rank overlapping prefixes of different groups)");
     r.assume("enable / disable is the admin_down flag; the session-closing side effects of the gRPC disable call are not exercised");
-    r.prop("admission", r.tier.pick(6_000, 200_000), arb_case, check);
+    r.prop("admission", r.tier.pick(30_000, 400_000), arb_case, check);
     r.prop("negotiate", r.tier.pick(30_000, 1_000_000), || (arb_caps(8), arb_caps(8)).prop_map(|(a, b)| NegCase { a, b }), check_negotiate);
 }
 
